@@ -6,7 +6,9 @@ most one qubit (sides ≥ 3) — and have PARALLEL EDGES as soon as one side is 
 
 With `Proofs/LatToric2DCodeSector.lean` (the sector matrices are these incidence matrices) and
 `Proofs/UnionFindIncidence.lean` (incidence criterion) this gives `closedGraph` of `code.Hz` and
-`code.Hx` for every `Lx, Ly ≥ 3` and `graphLike = false` for every size with a side equal to 2.
+`code.Hx` for every `Lx, Ly ≥ 3` and `graphLike = false` for every size with a side equal to 2;
+`closedMultigraph` (parallel edges allowed: the hypothesis of the union-find theorems since the
+repair of `Peeling_Tree.peel`) holds for EVERY `Lx, Ly ≥ 2`.
 -/
 import PanqecVerif.Proofs.LatToric2DCodeSector
 
@@ -244,6 +246,32 @@ theorem closedGraph_type (ht : t = 0 ∨ t = 1) (hx : 3 ≤ Lx) (hy : 3 ≤ Ly) 
       rintro ⟨rfl, rfl⟩; exact hvw rfl) h1 h2 hi1.1 hi1.2 hi2.1 hi2.2
     rw [this.1, this.2]
 
+/-- a generator acts on at most four qubits, so two generators share at most four -/
+theorem share_le_four (v w : Coord) :
+    (qubits Lx Ly).countP (fun q => inc Lx Ly v q && inc Lx Ly w q) ≤ 4 := by
+  have h1 : (qubits Lx Ly).countP (fun q => inc Lx Ly v q && inc Lx Ly w q) ≤
+      (qubits Lx Ly).countP (fun q => (nbrsOf Lx Ly v).contains q) := by
+    apply List.countP_mono_left
+    intro q _ hq
+    rw [Bool.and_eq_true] at hq
+    exact hq.1
+  have h2 := countP_contains_le (qubits Lx Ly) (nodup_qubits Lx Ly) (nbrsOf Lx Ly v)
+  have h3 : (nbrsOf Lx Ly v).length = 4 := rfl
+  omega
+
+/-- the incidence matrix of the generators of one type is a closed MULTIgraph already for
+    sides ≥ 2 (two generators share up to two qubits when a side is 2) -/
+theorem closedMultigraph_type (ht : t = 0 ∨ t = 1) (hx : 2 ≤ Lx) (hy : 2 ≤ Ly) (V : List Coord)
+    (hV : V ≠ []) (hnd : V.Nodup)
+    (hmem : ∀ s, s ∈ V ↔ ∃ x y, s = [x, y] ∧ IsS t Lx Ly x y) :
+    closedMultigraph (incMat V (qubits Lx Ly) (inc Lx Ly)) = true := by
+  apply closedMultigraph_incMat V _ _ hV hnd
+  · intro q hq
+    exact two_per_qubit ht hx hy V hnd hmem q hq
+  · intro v _ w _ _
+    have := share_le_four (Lx := Lx) (Ly := Ly) v w
+    omega
+
 end oneType
 
 /-! ### the two sector matrices -/
@@ -265,6 +293,20 @@ theorem closedGraph_Hx {Lx Ly : Nat} (hx : 3 ≤ Lx) (hy : 3 ≤ Ly) :
     closedGraph (Hx (lattice Lx Ly).rowsH) = true := by
   rw [Hx_rowsH (by omega) (by omega)]
   exact closedGraph_type (Or.inr rfl) hx hy _ (faces_ne_nil (by omega) (by omega))
+    (nodup_faces Lx Ly) mem_faces_S
+
+/-- `code.Hz` of EVERY supported `Toric2DCode` (sides ≥ 2) is a closed multigraph -/
+theorem closedMultigraph_Hz {Lx Ly : Nat} (hx : 2 ≤ Lx) (hy : 2 ≤ Ly) :
+    closedMultigraph (Hz (lattice Lx Ly).rowsH) = true := by
+  rw [Hz_rowsH hx hy]
+  exact closedMultigraph_type (Or.inl rfl) hx hy _ (verts_ne_nil (by omega) (by omega))
+    (nodup_verts Lx Ly) mem_verts_S
+
+/-- `code.Hx` of EVERY supported `Toric2DCode` (sides ≥ 2) is a closed multigraph -/
+theorem closedMultigraph_Hx {Lx Ly : Nat} (hx : 2 ≤ Lx) (hy : 2 ≤ Ly) :
+    closedMultigraph (Hx (lattice Lx Ly).rowsH) = true := by
+  rw [Hx_rowsH hx hy]
+  exact closedMultigraph_type (Or.inr rfl) hx hy _ (faces_ne_nil (by omega) (by omega))
     (nodup_faces Lx Ly) mem_faces_S
 
 /-! ### a side equal to 2: parallel edges -/
